@@ -244,7 +244,13 @@ def bin_(case, ctx):
             raise Violation("C15.bin.distribution", f"power-preserving bins of a linear spectrum are not distributed like "
                                                     f"the exact bin integrals (method {m}, ends {ends}, centres "
                                                     f"{np.asarray(carg)[:4].tolist()}...)")
-    if pres:
+    # a sample that coincides (to rounding) with the first / last centre may fall on either side of it once
+    # wavelengths are scaled to another unit
+    lim_on_sample = bool(np.any(np.abs(w_nm[:, None] - np.array([c.min(), c.max()])[None, :])
+                                                  < 1e-9 * span_nm))
+    if lim_on_sample:
+        ctx.tag("centre_on_sample_after_conversion(skipped_power_clause)")
+    if pres and not lim_on_sample:
         # total = integral of the spectrum samples lying inside the span of the centres (same rule)
         sel = (w_nm >= c.min()) & (w_nm <= c.max())
         if sel.sum() >= 2:
